@@ -8,7 +8,7 @@ CONSTANTS
   PadSizes = {0, 1}
   Incs = {1, 3}
   InitWins = {1, 5}
-  MaxFrames = {3}
+  MaxFrames = {1, 3}
   MaxSend = 2
   MaxCtl = 2
   OutCap = 4
@@ -18,9 +18,9 @@ CONSTANTS
   Promised = {2}
   Pings = {1}
   BugContES = FALSE
-  BugPadCredit = TRUE
+  BugPadCredit = FALSE
   EncodeAtEnqueue = FALSE
   BugZeroCostHeld = FALSE
-  SplitOnlyAtEnqueue = FALSE
-INVARIANTS WithinGrant WithinMaxFrame CreditReturned NoEligibleQueued LedgerAgrees PrefixFidelity
+  SplitOnlyAtEnqueue = TRUE
+INVARIANTS WithinGrant WithinMaxFrame CreditReturned NoEligibleQueued LedgerAgrees PrefixFidelity HpackInOrder
 CHECK_DEADLOCK FALSE
